@@ -45,7 +45,9 @@ if __name__ == '__main__':
     ids = argv
     rs = [r for r in REFACTORS if not ids or r['id'] in ids]
     if only_props:
-        rs = [dict(r, props=only_props) for r in rs]
+        # a refactor registered for some properties only (a seed kept as the guard of OTHER properties) is not judged by the rest
+        rs = [dict(r, props=[p for p in only_props if not r.get('props') or p in r['props']]) for r in rs]
+        rs = [r for r in rs if r['props']]
     with concurrent.futures.ThreadPoolExecutor(max_workers=6) as ex:
         res = list(ex.map(run_one, rs))
     bad = 0
